@@ -838,6 +838,10 @@ class Ev:
             if isinstance(b, Str) and isinstance(a, Str) and a.is_lit() and _sym_safe(b, a.text()):
                 return any(p[0] == "lit" and a.text() in p[1] for p in b.pieces) == isinstance(op, ast.In)
             raise Undecided("membership %r in %r" % (a, b))
+        if isinstance(a, SetV) and isinstance(b, SetV) and isinstance(op, (ast.Lt, ast.LtE, ast.Gt, ast.GtE)):
+            sub = all(any(same(x, y) for y in b.items) for x in a.items)
+            sup = all(any(same(x, y) for y in a.items) for x in b.items)
+            return {ast.LtE: sub, ast.GtE: sup, ast.Lt: sub and not sup, ast.Gt: sup and not sub}[type(op)]
         # order
         if isinstance(a, (int, float)) and not isinstance(a, bool) and isinstance(b, (int, float)) and not isinstance(b, bool):
             return {ast.Lt: a < b, ast.LtE: a <= b, ast.Gt: a > b, ast.GtE: a >= b}[type(op)]
